@@ -160,3 +160,8 @@ Fixpoint bytes_leb (a b : bytes) : bool :=
       else if N.ltb (Byte.to_N y) (Byte.to_N x) then false
       else bytes_leb a' b'
   end.
+
+(* strings.TrimSpace on ASCII input (Go's unicode white space beyond ASCII is not modelled) *)
+Definition is_go_space (b : byte) : bool := let n := Byte.to_N b in ((N.leb 9 n && N.leb n 13) || N.eqb n 32)%bool.
+Fixpoint drop_space (s : bytes) : bytes := match s with c :: r => if is_go_space c then drop_space r else s | [] => [] end.
+Definition trim_space (s : bytes) : bytes := rev (drop_space (rev (drop_space s))).
